@@ -579,6 +579,11 @@ impl Task {
                 }
                 task.set_err(&err);
                 task.set_data(&ctx.vars());
+                // an act that is given its error no longer waits for a sub-process to return:
+                // when a catch takes the error, the end of the catch steps completes the act
+                if !task.is_auto_complete() {
+                    task.set_auto_complete(true);
+                }
                 task.error(ctx)?;
             }
             EventAction::SetProcessVars => {
